@@ -17,7 +17,7 @@ from sim.runner import RunResult, Violation, HarnessError
 PROP = 'C17'
 
 # selftest: also prove determinism of the rarer modes (always pre-history, always fine yield points)
-SELFTEST_VARIANTS = {'sched': [dict(prehistory=8, fine=4)]}
+SELFTEST_VARIANTS = {'sched': [dict(prehistory=8, fine=4), dict(extra_yield=12, extra_yield_kinds=[2, 3])]}
 
 TEMPLATES = ['wraps', 'wraps_annot', 'sigattr', 'fwd', 'meth', 'mod', 'deco', 'asforged', 'comb', 'instdep']
 
@@ -140,6 +140,47 @@ class RandomWalk(sched.Policy):
         return live[self.ch.draw(len(live), 'finish-target')]
 
 
+class AccessWalk(sched.Policy):
+    """Switch where the running thread is at a source line that touches state outliving the
+    call (sim/static.py: attribute / global writes in descriptors, wrappers and module-level
+    functions, and the reads of the same names; plus the lines mentioning process-wide state).
+    Decided dynamically at the line, not from positions measured in a solo pass, so it also
+    reaches paths the solo pass never took (the hit path of a cache)."""
+
+    def __init__(self, ch, lines, one_in, first, max_switches=8):
+        self.ch = ch
+        self.lines = lines
+        self.one_in = one_in
+        self.first = first
+        self.left = max_switches
+
+    def start(self, n):
+        return self.first
+
+    def at_step(self, s, cur):
+        code = s.cur_code
+        if self.left <= 0 or code is None or s.cur_line not in self.lines.get(code.co_filename, ()):
+            return cur
+        if self.one_in > 1 and self.ch.draw(self.one_in, 'switch-here'):
+            return cur
+        live = [j for j in range(s.n) if not s.done[j] and j != cur]
+        if not live:
+            return cur
+        self.left -= 1
+        return live[self.ch.draw(len(live), 'walk-target')]
+
+    def at_finish(self, s, cur, live):
+        return live[self.ch.draw(len(live), 'finish-target')]
+
+
+def access_line_map():
+    from sim import static, sutstate
+    out = dict((k, set(v)) for k, v in static.interesting_lines().items())
+    for k, v in sutstate.access_lines().items():
+        out.setdefault(k, set()).update(v)
+    return out
+
+
 class PCT(sched.Policy):
     """Probabilistic concurrency testing: random priorities, d-1 change points
     (global steps) at which the running thread drops below everybody."""
@@ -205,12 +246,110 @@ def prefill(n):
         sigtools.signature(f)
 
 
-def expected_outcome(spec, entry, label, inspect_lines=False, need_wp=False, cfg=None, fine=False):
+_CAPACITY = {}
+
+
+def observed_capacity():
+    """How many retrievals of distinct functions it takes until some container of sigtools'
+    process-wide state stops growing or shrinks (a bounded cache evicting / being flushed);
+    None when nothing grows with retrievals (the tree as given) or nothing fills up within
+    AUX_N.  A pure function of the tree: measured from the post-warm-up state, memoised."""
+    if 'n' in _CAPACITY:
+        return _CAPACITY['n']
+    import sigtools
+    from sim import sutstate
+    with sutstate.isolated():
+        start = prev = sutstate.container_sizes()
+        grow = None
+        cap = None
+        for n, f in enumerate(aux_functions(), 1):
+            sigtools.signature(f)
+            sz = sutstate.container_sizes()
+            if n == 8:
+                grow = [i for i, (a, b) in enumerate(zip(start, sz)) if b > a]
+                if not grow:
+                    break
+            elif n > 8 and any(sz[i] <= prev[i] for i in grow):
+                cap = n
+                idx = [i for i in grow if sz[i] <= prev[i]][0]
+                _CAPACITY['idx'] = idx          # which container filled up
+                _CAPACITY['peak'] = prev[idx]   # its size when full
+                break
+            prev = sz
+    _CAPACITY['n'] = cap
+    return cap
+
+
+_PAIRS = {}
+
+
+def reader_writer_pairs(spec):
+    """For a tree whose process-wide state has a bounded container: which subjects of this
+    world make it grow when looked at for the first time (they go through it), and for which
+    ordered pairs (Lr, Lw) a first look at Lw still makes it grow after Lr has been looked at
+    (Lw misses where Lr now hits).  Measured on twins in isolation; memoised per world text."""
+    key = spec['source']
+    r = _PAIRS.get(key)
+    if r is not None:
+        return r
+    if len(_PAIRS) > 5000:
+        _PAIRS.clear()
+    import sigtools
+    from sim import sutstate
+    idx = _CAPACITY.get('idx')
+    labels = sorted(spec['subjects'])
+    pairs = []
+    if idx is not None:
+        with sutstate.isolated():
+            w = worlds.build(spec)
+            try:
+                users = []
+                for lab in labels:
+                    sutstate.restore()
+                    a = sutstate.container_sizes()[idx]
+                    try:
+                        sigtools.signature(w.subject(lab))
+                    except Exception:
+                        continue
+                    if sutstate.container_sizes()[idx] > a:
+                        users.append(lab)
+                for lr in users[:6]:
+                    for lw in users[:6]:
+                        sutstate.restore()
+                        try:
+                            sigtools.signature(w.subject(lr))
+                            a = sutstate.container_sizes()[idx]
+                            sigtools.signature(w.subject(lw))
+                        except Exception:
+                            continue
+                        if sutstate.container_sizes()[idx] > a:
+                            pairs.append((lr, lw))
+            finally:
+                w.teardown()
+    _PAIRS[key] = pairs
+    return pairs
+
+
+def fill_to_brim():
+    """Retrieve auxiliary functions one at a time until the bounded container is full."""
+    import sigtools
+    from sim import sutstate
+    idx, peak = _CAPACITY.get('idx'), _CAPACITY.get('peak')
+    n = 0
+    for f in aux_functions():
+        if sutstate.container_sizes()[idx] >= peak:
+            break
+        sigtools.signature(f)
+        n += 1
+    return n
+
+
+def expected_outcome(spec, entry, label, inspect_lines=False, need_wp=False, cfg=None, fine=False, warm=False):
     """(outcome, steps, write points) of the call executed alone, under a
     one-thread scheduler, on a fresh twin world.  Memoised per world source text
     (it is a pure function of it).  Write points = local steps at which shared
     state changed, discovered by diffing (no line numbers are hard-coded)."""
-    key = (spec['source'], entry, label, inspect_lines, fine)
+    key = (spec['source'], entry, label, inspect_lines, fine, warm)
     r = _TWIN_CACHE.get(key)
     if r is not None and (r[2] is not None or not need_wp):
         return r
@@ -230,11 +369,20 @@ def expected_outcome(spec, entry, label, inspect_lines=False, need_wp=False, cfg
             snap = snapshot.Snapshot(objects)
             last = [world_fp(snap, objects)]
 
+            from sim import sutstate as _ss
+            access = _ss.access_lines()
+
             class Watch(sched.Policy):
                 def at_step(self, s, cur):
+                    code = s.cur_code
+                    if code is not None and s.cur_line in access.get(code.co_filename, ()):
+                        # a line that mentions process-wide state (read or write side of a
+                        # check-then-act)
+                        if not sut_points or sut_points[-1] != s.local_steps[cur]:
+                            sut_points.append(s.local_steps[cur])
                     fp = world_fp(snap, objects)
                     if fp != last[0]:
-                        if fp[-1] != last[0][-1]:
+                        if fp[-1] != last[0][-1] and (not sut_points or sut_points[-1] != s.local_steps[cur]):
                             # process-wide sigtools state (none on the tree as given) was written
                             sut_points.append(s.local_steps[cur])
                         last[0] = fp
@@ -244,13 +392,24 @@ def expected_outcome(spec, entry, label, inspect_lines=False, need_wp=False, cfg
         else:
             policy = sched.Policy()
 
+        if warm:
+            # the measured call is the *second* look at the subject in this process (its first
+            # one, sequential and unobserved, comes before): the path taken when things are cached
+            try:
+                call_entry('sigtools.signature', w.subject(label))
+            except Exception:
+                pass
+            if need_wp:
+                snap = snapshot.Snapshot(objects)
+                last[0] = world_fp(snap, objects)
+
         def body(s, i):
             out[0] = run_call(entry, w, label, names)
         s = sched.Scheduler([body], policy, step_cap=(cfg or {}).get('step_cap', 400000),
                             inspect_lines=inspect_lines, fine=fine)
         s.run()
         r = (out[0], s.step, points[:40] if points is not None else None,
-             sut_points[:40] if sut_points is not None else None)
+             sut_points[:80] if sut_points is not None else None)
     finally:
         w.teardown()
         iso.__exit__()
@@ -303,7 +462,11 @@ class C17Sched(object):
                 label = l0 if same else ch.pick(labels, 'label')
                 prog.append((entry, label))
             programs.append(prog)
-        inspect_lines = bool(cfg.get('inspect_lines')) and ch.chance(1, 6, 'inspect-lines')
+        # lines of inspect.py (1) / weakref.py (2) / both (3) as additional yield points
+        inspect_lines = 0
+        if ch.chance(cfg.get('extra_yield', 1), 12, 'extra-yield-files'):
+            inspect_lines = cfg.get('extra_yield_kinds', [2])[ch.draw(len(cfg.get('extra_yield_kinds', [2])), 'extra-yield-kind')]
+            res.counters['extra_yield_files:' + {1: 'inspect', 2: 'weakref', 3: 'inspect+weakref'}[inspect_lines]] += 1
         # fine: also yield where a call made from a sigtools line has just returned (the points
         # inside a line at which CPython really can hand over the GIL)
         fine = ch.chance(cfg.get('fine', 1), 4, 'fine-yield-points')
@@ -314,12 +477,34 @@ class C17Sched(object):
         # pre-history: what the process did before (see prefill); such runs look for races on
         # process-wide state, so they use the write-point-biased strategy
         npre = 0
-        if ch.chance(cfg.get('prehistory', 1), 8, 'pre-history'):
+        # a tree whose process-wide state was seen to fill up gets far more of these runs
+        if ch.chance(cfg.get('prehistory', 1) * (4 if observed_capacity() is not None else 1), 8, 'pre-history'):
             npre = [40, 300, 300][ch.draw(3, 'pre-history-length')]
-        strategy = 1 if npre else ch.weighted(cfg.get('strategy_weights', [3, 3, 2, 2]), 'strategy')
+        brim = None
+        if npre and observed_capacity() is not None and ch.chance(1, 2, 'brim-mode'):
+            # a bounded container exists: one thread that finds its subject there (or, cold,
+            # inserts it) against one that has to insert, with the container filled to the brim
+            pairs = reader_writer_pairs(spec)
+            if pairs:
+                lr, lw = pairs[ch.draw(len(pairs), 'reader-writer-pair')]
+                brim = dict(reader_warm=bool(ch.draw(2, 'reader-warm')))
+                programs = [[('sigtools.signature', lr)], [('sigtools.signature', lw)]]
+                nthreads = 2
+                res.counters['runs_in_brim_mode'] += 1
+        if brim:
+            strategy = 1
+        elif npre:
+            strategy = [1, 4][ch.draw(2, 'prehistory-strategy')]
+        else:
+            strategy = ch.weighted(cfg.get('strategy_weights', [3, 3, 2, 2, 3]), 'strategy')
         first = ch.draw(nthreads, 'first-thread')
-        solo = [[expected_outcome(spec, e, l, inspect_lines, need_wp=(strategy == 1), cfg=cfg, fine=fine) for e, l in prog]
-                for prog in programs]
+        warm_own = bool(npre) and ch.chance(1, 2, 'warm-own-subjects')
+        if brim:
+            warm_own = brim['reader_warm']
+            first = 0
+        solo = [[expected_outcome(spec, e, l, inspect_lines, need_wp=(strategy == 1), cfg=cfg, fine=fine,
+                                  warm=(warm_own and ti == 0)) for e, l in prog]
+                for ti, prog in enumerate(programs)]
         expected = [[r[0] for r in t] for t in solo]
         solo_len = [sum(r[1] for r in t) for t in solo]
         write_points = []
@@ -336,7 +521,10 @@ class C17Sched(object):
                 pts.extend(base + p for p in (r[3] or []))
                 base += r[1]
             sut_write_points.append(pts)
-        if npre and any(sut_write_points):
+        if brim and sut_write_points[0]:
+            write_points = [sut_write_points[0], []]
+            radii = [0, 0, 0, 1]
+        elif npre and any(sut_write_points):
             # races on process-wide state: aim at the very steps that write to it
             write_points = sut_write_points
             radii = [0, 1, 2, 3]
@@ -372,21 +560,44 @@ class C17Sched(object):
             policy = PCT(prios, change)
             points = change
             sname = 'pct'
-        else:
+        elif strategy == 3:
             maxgap = [3, 20, 200][ch.draw(3, 'walk-gap')]
             policy = RandomWalk(ch, maxgap, first)
             points = maxgap
             sname = 'walk'
+        else:
+            one_in = [1, 2, 3, 6][ch.draw(4, 'access-one-in')]
+            policy = AccessWalk(ch, access_line_map(), one_in, first)
+            points = one_in
+            sname = 'access'
         res.counters['strategy:' + sname] += 1
         res.counters['threads:%d' % nthreads] += 1
-        if npre:
+        if npre and not brim:
+            cap = observed_capacity()
+            if cap is not None and ch.chance(2, 3, 'fill-to-capacity'):
+                # a bounded cache was seen to evict / flush at `cap` retrievals: start the race
+                # with it full or a few entries short of full
+                npre = max(1, cap - 1 - ch.draw(6, 'short-of-capacity'))
+                res.counters['runs_filling_a_cache_to_capacity'] += 1
             prefill(npre)
             res.counters['runs_with_prehistory'] += 1
             res.counters['prehistory_retrievals'] += npre
 
         w = worlds.build(spec)
         try:
+            # stable names are assigned before anything is retrieved, exactly as for the twin
             objects = snapshot.closure(w)
+            if warm_own:
+                # the process has looked at these very objects before: thread 0's subjects are
+                # retrieved once, sequentially, before the race (hit paths of whatever is cached)
+                for entry, label in programs[0]:
+                    try:
+                        call_entry('sigtools.signature', w.subject(label))
+                    except Exception:
+                        pass
+                res.counters['runs_with_own_subjects_retrieved_before'] += 1
+            if brim:
+                res.counters['brim_fill_retrievals'] += fill_to_brim()
             snap = snapshot.Snapshot(objects)
             names = snap.names()
             fp0 = world_fp(snap, objects)
@@ -494,7 +705,7 @@ def setup(tier):
     drivers = {'sched': C17Sched()}
     cfgs = {'sched': dict(name='sched', templates=TEMPLATES, max_forged=2 if thorough else 1,
                           max_depth=3 if thorough else 2, three_threads=3 if thorough else 1,
-                          inspect_lines=thorough, fine=2 if thorough else 1, prehistory=1, chunk=40, run_timeout=300, chunk_timeout=1200)}
+                          extra_yield=3 if thorough else 1, extra_yield_kinds=[1, 2, 3] if thorough else [2], fine=2 if thorough else 1, prehistory=1, chunk=40, run_timeout=300, chunk_timeout=1200)}
     return drivers, cfgs
 
 
